@@ -90,3 +90,28 @@ claim(
     "a call_soon callback queued before the call runs iff the call yielded; fast_acquire and *_nowait/close are exempt by the statement",
     "DESIGN.md 5/C08",
 )
+
+_TREE_NOTE = ("asyncio FIFO ready queue (never reordered); VLoop virtual time; generated code never swallows a cancellation; "
+              "the independent shadow scope model (vf/shadow.py) is kept in lock-step by the interpreter; same-instant / in-flight "
+              "ties accept both coherent outcomes and are counted in the evidence")
+claim("C01", "runtime monitor: generated task-tree programs interpreted against the real API on a virtual-time loop; per-group join oracle over the API-boundary event log (member ended, asyncio task done, handle final and truthful, no step after exit)",
+      "Held on every executed schedule: seeded random task trees (nested groups, spawn after cancel / from cleanup, start() children, shielded cleanup) with cancel/shield/deadline agents at every cycle, plus swept families (spawn during the empty-group exit checkpoint, cancels arriving at every cycle of __aexit__) on {stock, eager}.",
+      _TREE_NOTE, "DESIGN.md 5/C01")
+claim("C02", "runtime monitor: compositional exception-leaf accounting by object identity per group over the event log; siblings-cancelled clause through the shadow scope model",
+      "Held on every executed schedule: seeded random failure plans (raise before/while/after being cancelled, Boom from cleanup, mixed synthetic groups, start() children whose caller is cancelled) plus the failure-then-shield family.",
+      _TREE_NOTE, "DESIGN.md 5/C02")
+claim("C03", "runtime monitor: bounded-progress oracle on a cycle-counting virtual-time loop (Deadlock in an effectively cancelled scope, delivery latency <= 4 cycles, no normal completion of an operation entered in a cancelled scope) against the shadow scope model",
+      "Held on every executed schedule: seeded random programs with blocking ops (sleep_forever, sleeps, event waits, handle waits) under cancels from self/sibling/agent before entry, while blocked, while runnable, during shielded cleanup, after catch-and-continue; exhaustive scope-chain family; spawn-into-cancelled-group family. Measured maximum latency is recorded.",
+      _TREE_NOTE, "DESIGN.md 5/C03")
+claim("C04", "runtime monitor: shadow scope model evaluated at every interruption and every scope exit (absorb iff own cancel and no visible cancelled parent; cancelled_caught == absorbed; other exceptions pass, also inside groups)",
+      "Held on every executed schedule: exhaustive scope chains of depth<=3 x shields x cancelled subsets x timing x canceller with a bystander task, plus seeded deep trees with shields toggled while active and synthetic mixed exception groups.",
+      _TREE_NOTE, "DESIGN.md 5/C04")
+claim("C05", "runtime monitor: Task.cancelling() restored at scope/group exits in clean regions, no live loop handle of an exited scope, idle-loop cycle count, twin-differential runs of native asyncio constructs (timeout, TaskGroup, native cancel through a cancelled scope)",
+      "Held on every executed schedule: seeded programs, scope-history family (1-4 scopes in sequence x 0-5 swallowed re-deliveries x nesting x deadlines), native twins (4 scenarios x re-deliveries x nesting x children) on {stock, eager}.",
+      _TREE_NOTE, "DESIGN.md 5/C05")
+claim("C06", "runtime monitor on an exact virtual clock: interruption instants, flags and TimeoutError compared with the shadow model's discrete-event latching of deadlines; current_effective_deadline() probes",
+      "Held on every executed program: exhaustive nests of <=3 deadline scopes x shields x 6-point deadline grid x 1-3 sleeps (plain, helper and reassign variants), plus seeded deadline-heavy programs with move_on_*/fail_* helpers, reassignments and timed agents. Not decided on uvloop (no virtual time).",
+      _TREE_NOTE + "; fail_* scopes never cancelled explicitly / no reassignment after firing (proviso)", "DESIGN.md 5/C06")
+claim("C07", "runtime monitor: case analysis over the logged order of started(), child end, caller cancellation, start() return/raise and group exit, plus C02's leaf accounting for errors raised while unwinding",
+      "Held on every executed schedule: exhaustive start() sweep (k checkpoints then started/raise/return/block x afterwards x cleanup variant x caller/group cancel at every cycle x return_handle) plus seeded random programs with nested start() chains.",
+      _TREE_NOTE, "DESIGN.md 5/C07")
